@@ -35,6 +35,14 @@ theorem C03_check_sound (code : List Instr) (a : Top) : check code a = true → 
   simp only [codeTree, astTree] at heq
   rw [heq]
 
+/-- the property in its own words ("the reconstructed tree has exactly the meaning of the source"): when the checker accepts both the
+    AST of the SOURCE text and the AST returned by the decompiler against the same bytecode (the harness asks both on every program),
+    the two expressions have the same outcome under Python's evaluation rules for every interpretation -/
+theorem C03_source_equiv (code : List Instr) (src dec : Top) :
+    check code src = true → check code dec = true → ∀ I : Interp, src.eval I = dec.eval I := by
+  intro hs hd I
+  rw [← C03_check_sound code src hs I, C03_check_sound code dec hd I]
+
 /-- an accepted pair never gets stuck (stack underflow, jump out of the code, unsupported instruction, out of fuel) -/
 theorem C03_check_not_stuck (code : List Instr) (a : Top) : check code a = true → ∀ I : Interp, run code I ≠ .stuck := by
   intro h I
@@ -61,6 +69,14 @@ def genOf (cond : Expr) : Top := .gen (.atom 1) [{ targets := [1], iter := .atom
 example : check codeLamEqAnd (.lam astEqAnd) = true := by decide
 example : check codeGenEqAnd (genOf astEqAnd) = true := by decide
 example : check codeGenEqAnd (genOf astEqNotOr) = false := by decide
+/-- `(x for x in .0 if not (a and not b))` as compiled by CPython 3.12; the decompiler returns `not a or b` -/
+def codeGenNotAndNot : List Instr :=
+  [.load 0, .forIter, .store 1, .load 2, .jumpIf false 8, .load 3, .jumpIf true 8, .jumpBack 1, .load 1, .yieldValue, .popTop, .jumpBack 1]
+def astNotAndNot : Expr := .not (.boolop false (.atom 2) (.cons (.not (.atom 3)) .nil))
+def astNotAOrB : Expr := .boolop true (.not (.atom 2)) (.cons (.atom 3) .nil)
+/-- non-vacuous: the source AST and the differently shaped decompiled AST are both accepted, hence equivalent for every interpretation -/
+example : ∀ I : Interp, (genOf astNotAndNot).eval I = (genOf astNotAOrB).eval I :=
+  C03_source_equiv codeGenNotAndNot _ _ (by decide) (by decide)
 
 /-- an interpretation under which `b` is false and `==` tells `b` from `True` -/
 def witnessI : Interp :=
